@@ -88,7 +88,9 @@ def veccmpqOp : P String := do
   let eq : Rat → Rat → Bool := if kind == "small" then eqSmall else if kind == "general" then eqGeneral else (· == ·)
   let v : Verdict := { tag := if l.isEmpty then "trivial" else s!"veccmp_{kind}" }
   let m := veccmpTol eq l r
-  let v := v.diffIf (m != c) s!"veccmp<{kind}> model={m} impl={c}"
+  -- the documented order IS the tolerance comparison ("considers two elements equal using the checkEqualSmall / checkEqualGeneral function"):
+  -- a different answer is a failing input, not only a broken correspondence
+  let v := v.failIf (m != c) s!"veccmp<{kind}> not_the_documented_order impl={c} documented={m}"
   let v := v.failIf (c' != -c) s!"veccmp<{kind}> not_antisymmetric c={c} rev={c'}"
   return v.render
 
